@@ -46,6 +46,8 @@ GhostInit(S) ==
    pairs |-> EmptyFn,    \* key -> [put, del, putDone, delDone, valid]: `put k` then `delete k` by one thread, nobody else writing k (C11)
    delold |-> EmptyFn,   \* delete operation -> values of its key that were written before the delete was issued (same thread, or by calls that had returned)
    deadv |-> EmptyFn,    \* key -> values that an acknowledged delete has removed for good (C11: they were submitted before it)
+   acc |-> EmptyFn,      \* key hash -> accesses delivered to the sketch in the current ageing window (system-level C14)
+   accTotal |-> 0,       \* recorded accesses in the current window (TinyLFU::total_increments)
    desync |-> {},        \* actors whose model-inferred locals cannot be trusted until they start their next command / operation
    smp |-> {},           \* ids in the sample the code logged last (entries kept from it carry the estimate they were sampled with)
    adm |-> [id |-> 0, w |-> 0],   \* the put the worker is admitting (set at A_Space, from the command it actually received)
@@ -58,6 +60,23 @@ MayReturn(G, k) == {w.val : w \in SeqToSet(Get(G.ws, k, <<>>))} \cup {w.val : w 
 UpsertInFlightOn(S, id) ==
   \E c \in DOMAIN S.pc : IsCaller(c) /\ S.lc[c].id = id
       /\ S.pc[c] \in {"C_PouWeightOf", "T_Put", "T_Del", "T_UpdRemove", "T_UpdInsert"}
+
+\* one recorded access of hash h in the sketch: count it; the window restarts when the configured number is reached
+RECURSIVE SketchFeed(_, _, _)
+SketchFeed(G, hs, resetAt) ==
+  IF hs = <<>> THEN G
+  ELSE LET h == Head(hs)
+           t == G.accTotal + 1
+           G1 == IF t >= resetAt THEN [G EXCEPT !.acc = EmptyFn, !.accTotal = 0]
+                 ELSE [G EXCEPT !.acc = With(@, h, Get(@, h, 0) + 1), !.accTotal = t]
+       IN SketchFeed(G1, Tail(hs), resetAt)
+
+HashOf(cfg, k) == IF cfg.hash = "const" THEN 7 ELSE k
+\* the frequency profile installed before the run (verif_record_access: one batch per key)
+RECURSIVE GhostPreload(_, _, _)
+GhostPreload(G, freq, cfg) ==
+  IF freq = <<>> THEN G
+  ELSE GhostPreload(SketchFeed(G, [i \in 1..Head(freq)[2] |-> HashOf(cfg, Head(freq)[1])], cfg.counters), Tail(freq), cfg)
 
 -----------------------------------------------------------------------------
 (* ghost update *)
@@ -243,13 +262,17 @@ GhostNext(G, S, a, site, inp, S2, o) ==
                                                        tainted |-> Get(G.taintK, k, "")])]
              ELSE G11
       \* D11 / D12 / D13: a by-key removal that hits an entry it was not meant for taints the key
+      \* the consumer applies a batch of access records to the sketch
+      G12b == IF site = "R_Apply" /\ \E i \in DOMAIN o.ev : o.ev[i].e = "apply"
+              THEN SketchFeed(G12, o.ev[CHOOSE i \in DOMAIN o.ev : o.ev[i].e = "apply"].f, S.cfg.counters)
+              ELSE IF site = "C_ShutClearPolicy" THEN [G12 EXCEPT !.acc = EmptyFn, !.accTotal = 0] ELSE G12
       G13 == IF site = "K_DelUsed" /\ L.mode # "del" /\ Present(S, L.key)
                 /\ LET e == S.store[L.key] IN
                      e.id # L.vic.id
                      \/ (a = "sweeper" /\ (e.exp = NoExp \/ e.exp > L.t) /\ (UpsertInFlightOn(S, e.id) \/ e.id \in DOMAIN G.stale))
-             THEN [G12 EXCEPT !.taintK = With(@, L.key,
+             THEN [G12b EXCEPT !.taintK = With(@, L.key,
                         LET e == S.store[L.key] IN
-                        IF e.id # L.vic.id THEN "D11" ELSE IF UpsertInFlightOn(S, e.id) THEN "D12" ELSE G.stale[e.id])] ELSE G12
+                        IF e.id # L.vic.id THEN "D11" ELSE IF UpsertInFlightOn(S, e.id) THEN "D12" ELSE G.stale[e.id])] ELSE G12b
   IN G13
 
 \* the lookup facts of reader a including the lookup made in the current C_Get step
@@ -609,6 +632,22 @@ J_C13(S, a, site, inp, S2, o, G, G2) ==
       THEN <<V("C13", "violation", "", "an acknowledgement handed out before or during shutdown never completed")>> ELSE <<>>)
 
 -----------------------------------------------------------------------------
+(* C14 at system level: the estimate admission uses for a key is at least the number of its accesses that were delivered to the
+   sketch in the current ageing window (capped), whatever path they took through buffers, channel and consumer *)
+
+IdKey(S, id) == IF id \in DOMAIN S.kw THEN S.kw[id].key
+                ELSE LET cs == {n \in DOMAIN S.cmds : S.cmds[n].id = id /\ S.cmds[n].kind \in {"put", "putttl"}}
+                     IN IF cs = {} THEN -1 ELSE S.cmds[CHOOSE n \in cs : TRUE].key
+
+J_C14sys(S, a, site, inp, S2, o, G, G2) ==
+  IF a # "worker" \/ o.truth = <<>> \/ S.cfg.hash \notin {"id", "const"} THEN <<>>
+  ELSE LET bad == {j \in DOMAIN o.truth :
+                     LET k == IdKey(S, o.truth[j][1]) IN
+                     k >= 0 /\ o.truth[j][2] < (LET n == Get(G.acc, HashOf(S.cfg, k), 0) IN IF n > 16 THEN 16 ELSE n)}
+       IN IF bad = {} THEN <<>>
+          ELSE <<V("C14", "violation", "", "admission used an estimate below the number of accesses delivered to the sketch for that key in this ageing window")>>
+
+-----------------------------------------------------------------------------
 (* C15: every hit is buffered, delivered or counted as dropped *)
 
 J_C15(S, a, site, inp, S2, o, G, G2) ==
@@ -690,6 +729,7 @@ Judge(S, a, site, inp, S2, o, G, G2) ==
   \o J_C10q(S, a, site, inp, S2, o, G, G2)
   \o J_C11(S, a, site, inp, S2, o, G, G2)
   \o J_C13(S, a, site, inp, S2, o, G, G2)
+  \o J_C14sys(S, a, site, inp, S2, o, G, G2)
   \o J_C15(S, a, site, inp, S2, o, G, G2)
   \o J_C16(S, a, site, inp, S2, o, G, G2)
   \o J_C16r(S, a, site, inp, S2, o, G, G2)
